@@ -2,7 +2,8 @@
    skeletons REGENERATED into Gen/Skel_errtell.v.  The error classes are finite (is it a
    *trzszError, five classes of errType, trace flag, "is the text of errStoppedAndDeleted",
    the transfer's stopAndDelete flag, did deleteCreatedFiles delete anything): the statement is
-   computed for all 160 of them and lifted to a universally quantified one. *)
+   computed for all of them (40 error classes x 8 environments: stopAndDelete flag, anything
+   deleted, the tunnel window) and lifted to a universally quantified one. *)
 From Coq Require Import List String Bool.
 Import ListNotations.
 From Trzsz Require Import Model.ErrTell Gen.Skel_errtell Gen.Skel_errcallers.
@@ -11,7 +12,7 @@ Open Scope string_scope.
 Lemma all_errs_complete : forall e, In e et_all_errs.
 Proof. intros [[] [] [] []]; vm_compute; tauto. Qed.
 Lemma all_envs_complete : forall v, In v et_all_envs.
-Proof. intros [[] []]; vm_compute; tauto. Qed.
+Proof. intros [[] [] []]; vm_compute; tauto. Qed.
 
 Lemma client_all :
   forallb (fun e => forallb (et_client_ok errtell_preds errtell_clientError e) et_all_envs) et_all_errs = true.
@@ -36,7 +37,8 @@ Proof.
   revert b. induction a as [|x s IH]; intros [|y t] H; cbn in H; try discriminate; [reflexivity|].
   apply andb_true_iff in H. destruct H as [H1 H2]. rewrite (IH t H2). f_equal.
   destruct x, y; cbn in H1; try discriminate; try reflexivity.
-  - apply andb_true_iff in H1. destruct H1 as [Hs Hn]. apply Bool.eqb_prop in Hn.
+  - apply andb_true_iff in H1. destruct H1 as [H1 Hu]. apply andb_true_iff in H1. destruct H1 as [Hs Hn].
+    apply Bool.eqb_prop in Hn. apply Bool.eqb_prop in Hu.
     destruct typ, typ0; cbn in Hs; try discriminate; congruence.
   - apply Bool.eqb_prop in H1. congruence.
 Qed.
@@ -74,10 +76,13 @@ Proof.
   intros e env. split; [apply client_ok_spec, client_tells|apply server_ok_spec, server_tells].
 Qed.
 
-(* a side that is not the victim of a line of its peer sends exactly one fail / FAIL line *)
+(* a side that is not the victim of a line of its peer sends exactly one fail / FAIL line on
+   the writer in force; the server, exactly in the tunnel window, the same line once more on
+   the accepted tunnel connection *)
 Lemma one_line_of e env (x : list et_act) : et_victim e = false ->
-  (x = et_client_sends e env -> exists w n, x = [ASend w n] /\ (w = WFail \/ w = WFAIL)) /\
-  (x = et_server_sends e env -> exists w, x = [ASend w false] /\ (w = WFail \/ w = WFAIL)).
+  (x = et_client_sends e env -> exists w n, x = [ASend w n false] /\ (w = WFail \/ w = WFAIL)) /\
+  (x = et_server_sends e env -> exists w, (w = WFail \/ w = WFAIL) /\
+     x = ASend w false false :: (if et_window env then [ASend w false true] else [])).
 Proof.
   intro Hv. unfold et_client_sends, et_server_sends, et_word_of. rewrite Hv. split; intros ->.
   - destruct (et_flag env && et_deleted env); [exists WFail, true; auto|].
@@ -86,8 +91,10 @@ Proof.
 Qed.
 
 Corollary not_victim_sends_one : forall e env, et_victim e = false ->
-  (exists w n, et_sends (fst (et_run errtell_preds errtell_clientError e env)) = [ASend w n] /\ (w = WFail \/ w = WFAIL)) /\
-  (exists w, et_sends (fst (et_run errtell_preds errtell_serverError e env)) = [ASend w false] /\ (w = WFail \/ w = WFAIL)).
+  (exists w n, et_sends (fst (et_run errtell_preds errtell_clientError e env)) = [ASend w n false] /\ (w = WFail \/ w = WFAIL)) /\
+  (exists w, (w = WFail \/ w = WFAIL) /\
+     et_sends (fst (et_run errtell_preds errtell_serverError e env)) =
+       ASend w false false :: (if et_window env then [ASend w false true] else [])).
 Proof.
   intros e env Hv. destruct (tells_peer e env) as [[_ [_ [Hc _]]] [_ [_ [Hs _]]]].
   split; [apply (proj1 (one_line_of e env _ Hv) Hc)|apply (proj2 (one_line_of e env _ Hv) Hs)].
